@@ -14,6 +14,7 @@ from props import c09
 TOL = c09.TOL
 IMPORTS = c09.IMPORTS
 SCP_KEY = "C08:scp-delay-applied-twice@methane_scp.calculate_monthly_scp_caloric_production"
+GROWTH_KEY = "C08:growth-factors-not-cut-to-horizon@seaweed.get_growth_rates"
 MONTHS = ["JAN", "FEB", "MAR", "APR", "MAY", "JUN", "JUL", "AUG", "SEP", "OCT", "NOV", "DEC"]
 
 COUNTRY_OPTS = {
@@ -109,6 +110,8 @@ def gen_real(rng, iso3):
         opt["scale"] = "global"
         for k, v in GLOBAL_OVERRIDES.items():
             opt[k] = rng.choice(v)
+    if iso3 in c09.SPECIAL:      # the four countries with a fixed harvest-before-May share: keep crops switched on
+        opt["crop_disruption"] = rng.choice(["zero", "country_nuclear_winter"])
     opt.update({"intake_constraints": "enabled", "fat": "not_required", "protein": "not_required",
                 "NMONTHS": rng.choice([48, 60, 72, 84, 96, 108, 120, 120, 120])})
     return {"kind": "real", "iso3": iso3, "options": opt}
@@ -143,7 +146,12 @@ def series_terms(i, o):
         t.append(("built_area", f"series_code {TOL} (seaweed_built_area {cbool(w['add'])} {N} {cnat(w['delay'])} {fq(w['new_frac'])} "
                                 f"{fq(w['max_frac'])}) {fql(o['built_area'])}"))
     if "growth" in o:
-        t.append(("growth", f"series_code {TOL} (seaweed_growth {fql(i['seaweed']['daily'])}) {fql(o['growth'])}"))
+        # exact 30th powers of 53-bit floats are ~1600-bit rationals: compare a spread of ten months (the map is pointwise)
+        daily, obs = i["seaweed"]["daily"], o["growth"]
+        n = len(daily)
+        idx = sorted(set([0, 1, n - 1] + [(k * 37 + 5) % n for k in range(7)])) if n and len(obs) == n else list(range(n))
+        t.append(("growth", f"if Nat.eqb {cnat(len(obs))} {cnat(n)} then series_code {TOL} (seaweed_growth "
+                            f"{fql([daily[k] for k in idx])}) {fql([obs[k] for k in idx] if len(obs) == n else obs)} else 2%nat"))
     if "stored" in o:
         s = i["stored"]
         if s["add"]:
@@ -187,7 +195,7 @@ def make_cases(ctx):
     isos = countries()
     pool = ["WOR", "ARG", "USA", "LSO", "ZAF", "JPN", "PRK", "KOR", "IND", "SLV"]
     if ctx.quick:
-        chosen = rng.sample(pool, 5) + rng.sample(isos, nreal - 5)
+        chosen = ["WOR", "ZAF", "JPN", "PRK", "KOR"] + rng.sample(pool[1:] + isos, nreal - 5)
     else:
         chosen = (isos + ["WOR"] * 6) * 3
         chosen = chosen[:nreal]
@@ -278,7 +286,7 @@ def audit(ctx):
         if f["kind"] in seen:
             continue
         seen.add(f["kind"])
-        key = SCP_KEY if f["kind"] == "scp-delay-applied-twice" else "C08:" + f["kind"]
+        key = {"scp-delay-applied-twice": SCP_KEY, "length-growth": GROWTH_KEY}.get(f["kind"], "C08:" + f["kind"])
         ctx.violation(key, f["what"], {"kind": "counterexample", "runner": "c08_audit", **f})
     if res["failures"]:
         ctx.log("audit failure kinds:", res["failure_kinds"])
